@@ -1,8 +1,762 @@
-// C04 harness (stub: replaced by the real harness).
-use crate::vx::report::Report;
+// C04 sub-harness -- currently the SMOKE TEST of the shared generators (mkmsg.rs)
+// and wire readers (wire.rs); NOT yet the C04 oracle.
+//
+// What it proves: every value mkmsg generates is encoded by the sender codec,
+// is structurally readable by the independent wire readers, is accepted by the
+// receiver codec (negotiate(remote, local)) and comes back equal (NLRI multiset,
+// next hop, attributes modulo the fate documented in mkmsg::AttrFate).  A value
+// that does not come back is reported as a violation with a replayable case
+// string; each one found on the real code is triaged in
+// /verif/notes/gen-findings.md (generator bugs were fixed instead).
+//
+// TODO(C04): the real oracle still has to add
+//   * the entry-count ladder 0,1,2,k-1,k,k+1,2k,3k+1 per (family, attr size, add-path)
+//     with the per-frame size / "no frame without NLRI while entries remain" clauses;
+//   * the attribute-size ladder (mkmsg::attr_block_of_size) up to max+1;
+//   * all 1024 capability pairs (mkmsg::codec_pairs_desc) incl. 2-byte-AS
+//     reconciliation expectations (an independent model of RFC 6793 §4.2.3);
+//   * decode(encode(decode(b))) fixed point; encode_to's returned count == frames;
+//   * OPEN capability lists crossing 255 bytes (mkmsg::capability_sets_oversize);
+//   * RFC 8277 §2.4 reading of withdrawals (wire::NlriOpts::withdraw).
 
-pub fn run(_replay: Option<&str>) -> Report {
+use crate::mkmsg::{self, NlriSize, PairDesc};
+use crate::vx::report::{catch, hex, Report, Violation};
+use crate::wire;
+use rustybgp_packet::bgp::{
+    Attribute, Capability, Family, Message, Nexthop, ParsedMessage, ParsedUpdate, PathNlri, PeerCodec,
+
+};
+use std::collections::BTreeMap;
+
+fn fam(i: usize) -> Family {
+    mkmsg::families()[i]
+}
+
+fn viol(clause: &str, shape: String, what: String, case: &str) -> Violation {
+    Violation { sig: format!("C04/{clause}/{shape}"), what, case: case.to_string() }
+}
+
+/// Sorted debug strings: multiset comparison without Ord on the subject types.
+fn multiset<T: std::fmt::Debug>(v: &[T]) -> Vec<String> {
+    let mut s: Vec<String> = v.iter().map(|x| format!("{x:?}")).collect();
+    s.sort();
+    s
+}
+
+struct Decoded {
+    reach: Vec<PathNlri>,
+    unreach: Vec<PathNlri>,
+    nexthops: Vec<Option<Nexthop>>,
+    attrs: Vec<Vec<Attribute>>,
+    eor: Vec<Family>,
+    others: usize,
+    err_attrs: usize,
+}
+
+/// Encode with the sender, walk with wire.rs, decode with the receiver.
+/// Err = (clause, detail).
+fn transfer(
+    family: Family,
+    d: &PairDesc,
+    msg: &Message,
+    n_entries: usize,
+    is_reach: bool,
+) -> Result<(Vec<Vec<u8>>, Decoded), (String, String)> {
+    let (mut tx, mut rx) = mkmsg::pair_from_desc(family, d);
+    let frames = match catch(|| mkmsg::encode(&mut tx, msg)) {
+        Err(p) => return Err(("encode-panics".into(), p)),
+        Ok(Err(e)) => return Err(("encode-fails".into(), e)),
+        Ok(Ok(f)) => f,
+    };
+    // independent structural walk
+    let mut seen = 0usize;
+    for (i, f) in frames.iter().enumerate() {
+        let fr = wire::read_frame(f, 65535).map_err(|e| ("frame-malformed".to_string(), format!("frame {i}: {e}; bytes={}", hex(f))))?;
+        if fr.len != f.len() {
+            return Err(("frame-malformed".into(), format!("frame {i}: reader length {} != {}", fr.len, f.len())));
+        }
+        if let wire::Body::Update(u) = &fr.body {
+            let o = wire::NlriOpts::reach(d.tx_addpath());
+            let walk = |k: wire::NlriKind, sp: wire::Span| -> Result<usize, (String, String)> {
+                wire::walk_nlri(k, o, f, sp).map(|v| v.len()).map_err(|e| ("nlri-malformed".to_string(), format!("frame {i}: {e}; bytes={}", hex(f))))
+            };
+            seen += walk(wire::NlriKind::Ipv4, u.withdrawn)?;
+            seen += walk(wire::NlriKind::Ipv4, u.nlri)?;
+            for (afi, safi, sp) in u.mp_reach.iter().map(|m| (m.afi, m.safi, m.nlri)).chain(u.mp_unreach.iter().map(|m| (m.afi, m.safi, m.nlri))) {
+                if (afi, safi) != (family.afi(), family.safi()) {
+                    return Err(("frame-malformed".into(), format!("frame {i}: MP attribute for {afi}/{safi}, expected {}/{}", family.afi(), family.safi())));
+                }
+                match wire::nlri_kind(afi, safi) {
+                    Some(k) => seen += walk(k, sp)?,
+                    None => seen = usize::MAX / 2, // families without an independent walker
+                }
+            }
+        }
+    }
+    if seen < usize::MAX / 4 && seen != n_entries && (n_entries > 0 || is_reach) {
+        return Err(("nlri-count".into(), format!("independent walk found {seen} NLRI in {} frame(s), {n_entries} were submitted", frames.len())));
+    }
+    // decode with the peer's codec
+    let mut out = Decoded { reach: vec![], unreach: vec![], nexthops: vec![], attrs: vec![], eor: vec![], others: 0, err_attrs: 0 };
+    for (i, f) in frames.iter().enumerate() {
+        let parsed = match catch(|| mkmsg::decode_frame(&mut rx, f)) {
+            Err(p) => return Err(("decode-panics".into(), format!("frame {i}: {p}; bytes={}", hex(f)))),
+            Ok(Err(n)) => return Err(("decode-rejects".into(), format!("frame {i}: {n}; bytes={}", hex(f)))),
+            Ok(Ok(m)) => m,
+        };
+        match parsed {
+            ParsedMessage::Update(ParsedUpdate::EndOfRib(f)) => out.eor.push(f),
+            ParsedMessage::Update(ParsedUpdate::Routes { reach, mp_reach, unreach, mp_unreach, attrs, error_attrs }) => {
+                out.err_attrs += error_attrs.len();
+                let mut any = false;
+                for r in reach.into_iter().chain(mp_reach) {
+                    if r.family != family {
+                        return Err(("wrong-family".into(), format!("decoded reach family {:?}", r.family)));
+                    }
+                    out.reach.extend(r.entries);
+                    out.nexthops.push(r.nexthop);
+                    any = true;
+                }
+                if any {
+                    out.attrs.push(attrs);
+                }
+                for u in unreach.into_iter().chain(mp_unreach) {
+                    if u.family != family {
+                        return Err(("wrong-family".into(), format!("decoded unreach family {:?}", u.family)));
+                    }
+                    out.unreach.extend(u.entries);
+                }
+            }
+            _ => out.others += 1,
+        }
+    }
+    Ok((frames, out))
+}
+
+/// What a conforming receiver on a 4-octet-AS session holds after decoding `a`.
+fn expected_attrs(attrs: &[Attribute]) -> Vec<Attribute> {
+    let mut out = Vec::new();
+    for a in attrs {
+        if a.is_opaque() {
+            if a.flags() & 0x40 == 0 {
+                continue; // optional non-transitive unknown: discarded
+            }
+            let body = a.binary().unwrap().clone();
+            let flags = if body.len() > 255 { a.flags() | 0x10 } else { a.flags() };
+            out.push(Attribute::new_opaque(a.code(), flags, body));
+        } else if a.code() == Attribute::AS4_PATH || a.code() == Attribute::AS4_AGGREGATOR {
+            continue;
+        } else {
+            out.push(a.clone());
+        }
+    }
+    out
+}
+
+/// One UPDATE case: returns violations (empty = round-trips).
+fn check_update(
+    case: &str,
+    family: Family,
+    d: &PairDesc,
+    entries: Vec<PathNlri>,
+    is_reach: bool,
+    nexthop: Option<Nexthop>,
+    attrs: &[Attribute],
+    shape_extra: &str,
+) -> Vec<Violation> {
+    let op = if is_reach { "reach" } else { "unreach" };
+    let shape = format!("{}:{op}{shape_extra}", mkmsg::family_name(family));
+    let msg = if is_reach { mkmsg::reach(family, entries.clone(), nexthop, attrs) } else { mkmsg::unreach(family, entries.clone()) };
+    let (_, dec) = match transfer(family, d, &msg, entries.len(), is_reach) {
+        Ok(x) => x,
+        Err((clause, detail)) => return vec![viol(&clause, shape, detail, case)],
+    };
+    let mut vs = Vec::new();
+    if dec.err_attrs > 0 {
+        vs.push(viol("attr-rejected", shape.clone(), format!("receiver reported {} attribute error(s) on a valid UPDATE", dec.err_attrs), case));
+    }
+    let want: Vec<PathNlri> = if is_reach {
+        entries.clone()
+    } else {
+        entries.iter().map(|e| PathNlri { path_id: e.path_id, nlri: mkmsg::unreach_canonical(&e.nlri) }).collect()
+    };
+    let got = if is_reach { &dec.reach } else { &dec.unreach };
+    let other = if is_reach { &dec.unreach } else { &dec.reach };
+    if multiset(&want) != multiset(got) || !other.is_empty() {
+        vs.push(viol("nlri-differs", shape.clone(), format!("sent {:?}; received {op} {:?}, opposite list {:?}", want, got, other), case));
+    }
+    if is_reach {
+        for nh in &dec.nexthops {
+            if *nh != nexthop {
+                let nhs = match (nexthop, nh) {
+                    (Some(a), Some(b)) => format!(":{}->{}", nh_class(&a), nh_class(b)),
+                    (Some(a), None) => format!(":{}->none", nh_class(&a)),
+                    (None, Some(b)) => format!(":none->{}", nh_class(b)),
+                    _ => String::new(),
+                };
+                vs.push(viol("nexthop-differs", format!("{}:{op}{nhs}", mkmsg::family_name(family)), format!("sent next hop {nexthop:?}, received {nh:?}"), case));
+                break;
+            }
+        }
+        let want_attrs = expected_attrs(attrs);
+        for a in &dec.attrs {
+            if *a != want_attrs {
+                vs.push(viol("attrs-differ", shape.clone(), format!("sent {:?} (expected at receiver {:?}), received {:?}", attrs, want_attrs, a), case));
+                break;
+            }
+        }
+    }
+    vs
+}
+
+fn nh_class(n: &Nexthop) -> &'static str {
+    match n {
+        Nexthop::V4(_) => "v4",
+        Nexthop::V6(_) => "v6",
+        Nexthop::V6LinkLocal(..) => "v6+ll",
+    }
+}
+
+fn open_eq(a: &rustybgp_packet::bgp::Open, b: &rustybgp_packet::bgp::Open) -> bool {
+    a.as_number == b.as_number && a.holdtime == b.holdtime && a.router_id == b.router_id && a.capability == b.capability
+}
+
+/// Non-UPDATE message: encode, walk, decode, compare.
+fn check_simple(case: &str, kind: &str, msg: &Message) -> Vec<Violation> {
+    let mut tx = PeerCodec::new();
+    let mut rx = PeerCodec::new();
+    let shape = kind.to_string();
+    let frames = match catch(|| mkmsg::encode(&mut tx, msg)) {
+        Err(p) => return vec![viol("encode-panics", shape, p, case)],
+        Ok(Err(e)) => return vec![viol("encode-fails", shape, e, case)],
+        Ok(Ok(f)) => f,
+    };
+    if frames.len() != 1 {
+        return vec![viol("frame-count", shape, format!("{} frames for one message", frames.len()), case)];
+    }
+    let f = &frames[0];
+    let fr = match wire::read_frame(f, 4096) {
+        Ok(fr) => fr,
+        Err(e) => return vec![viol("frame-malformed", shape, format!("{e}; bytes={}", hex(f)), case)],
+    };
+    let parsed = match catch(|| mkmsg::decode_frame(&mut rx, f)) {
+        Err(p) => return vec![viol("decode-panics", shape, p, case)],
+        Ok(Err(n)) => return vec![viol("decode-rejects", shape, format!("{n}; bytes={}", hex(f)), case)],
+        Ok(Ok(m)) => m,
+    };
+    let same = match (msg, &parsed, &fr.body) {
+        (Message::Open(a), ParsedMessage::Open(b), wire::Body::Open(w)) => {
+            // wire view: capabilities seen by the independent reader == submitted
+            open_eq(a, b) && w.caps.len() == a.capability.len() && w.version == 4 && w.hold == a.holdtime.seconds() && w.id == a.router_id
+        }
+        (Message::Notification(a), ParsedMessage::Notification(b), wire::Body::Notification { code, subcode, data }) => {
+            a == b && *code == a.notification_code() && *subcode == a.notification_subcode() && data.of(f) == a.notification_data()
+        }
+        (Message::Keepalive, ParsedMessage::Keepalive, wire::Body::Keepalive) => true,
+        (Message::RouteRefresh { family: a }, ParsedMessage::RouteRefresh { family: b }, wire::Body::RouteRefresh { afi, subtype, safi }) => {
+            a == b && *afi == a.afi() && *safi == a.safi() && *subtype == 0
+        }
+        _ => false,
+    };
+    if same {
+        vec![]
+    } else {
+        vec![viol("value-differs", shape, format!("decoded value or independent wire view differs from the submitted message; bytes={}", hex(f)), case)]
+    }
+}
+
+// ---------------------------------------------------------------------------
+// case descriptors:  nlri:<fam>:<idx>:<r|u>   all:<fam>:<r|u>   nh:<fam>:<idx>
+//                    attr:<fam>:<set idx>     pair:<fam>:<pair name>:<min|max>:<r|u>
+//                    open:<idx>  notif:<idx>  rr:<idx>  keepalive  codeonly:<fam>:<idx>:<r|u>
+// ---------------------------------------------------------------------------
+
+fn eval_case(case: &str) -> Result<Vec<Violation>, String> {
+    let p: Vec<&str> = case.split(':').collect();
+    let num = |i: usize| -> Result<usize, String> { p.get(i).and_then(|s| s.parse().ok()).ok_or(format!("bad case {case}")) };
+    let ru = |i: usize| -> Result<bool, String> {
+        match p.get(i) {
+            Some(&"r") => Ok(true),
+            Some(&"u") => Ok(false),
+            _ => Err(format!("bad case {case}")),
+        }
+    };
+    let dflt = PairDesc::DEFAULT;
+    match p[0] {
+        "nlri" | "codeonly" => {
+            let f = fam(num(1)?);
+            let list = if p[0] == "nlri" { mkmsg::nlris_named(f) } else { mkmsg::nlris_code_only(f) };
+            let (name, n) = list.get(num(2)?).ok_or("index")?.clone();
+            let _ = name;
+            let extra = if mkmsg::nlri_has_label_stack(&n) { ":label-stack" } else { "" };
+            let extra = if p[0] == "codeonly" { ":code-only-form".to_string() } else { extra.to_string() };
+            Ok(check_update(case, f, &dflt, vec![PathNlri::new(n)], ru(3)?, mkmsg::default_nexthop(f), &mkmsg::base_attrs(), &extra))
+        }
+        "all" => {
+            let f = fam(num(1)?);
+            let ns: Vec<_> = mkmsg::nlris(f, NlriSize::All).into_iter().filter(|n| !mkmsg::nlri_has_label_stack(n)).collect();
+            Ok(check_update(case, f, &dflt, mkmsg::path_entries(&ns, false), ru(2)?, mkmsg::default_nexthop(f), &mkmsg::base_attrs(), ":all-values"))
+        }
+        "nh" => {
+            let f = fam(num(1)?);
+            let c = mkmsg::nexthops(f).get(num(2)?).ok_or("index")?.clone();
+            let mut d = dflt;
+            d.l_ext_nh = c.needs_ext_nh;
+            d.r_ext_nh = c.needs_ext_nh;
+            let n = mkmsg::nlris(f, NlriSize::Min).remove(0);
+            Ok(check_update(case, f, &d, vec![PathNlri::new(n)], true, c.nexthop, &mkmsg::base_attrs(), ""))
+        }
+        "attr" => {
+            let f = fam(num(1)?);
+            let (name, set) = mkmsg::attribute_sets().get(num(2)?).ok_or("index")?.clone();
+            let kind = name.split('#').next().unwrap_or("").to_string();
+            let n = mkmsg::nlris(f, NlriSize::Max).remove(0);
+            Ok(check_update(case, f, &dflt, vec![PathNlri::new(n)], true, mkmsg::default_nexthop(f), &set, &format!(":attr-{kind}")))
+        }
+        "pair" => {
+            let f = fam(num(1)?);
+            let d = PairDesc::parse(p.get(2).ok_or("pair")?).ok_or("pair name")?;
+            let size = if p.get(3) == Some(&"max") { NlriSize::Max } else { NlriSize::Min };
+            let n = mkmsg::nlris(f, size).remove(0);
+            let e = mkmsg::path_entries(&[n], d.tx_addpath());
+            let nh = mkmsg::default_nexthop(f);
+            // base attributes only: no wide AS, so 2-byte sessions need no reconciliation
+            Ok(check_update(case, f, &d, e, ru(4)?, nh, &mkmsg::base_attrs(), &format!(":{}", pair_class(&d))))
+        }
+        "open" => Ok(check_simple(case, "open", &mkmsg::opens().get(num(1)?).ok_or("index")?.1)),
+        "notif" => Ok(check_simple(case, "notification", &mkmsg::notifications().get(num(1)?).ok_or("index")?.1)),
+        "rr" => Ok(check_simple(case, "route-refresh", &mkmsg::route_refreshes().get(num(1)?).ok_or("index")?.1)),
+        "keepalive" => Ok(check_simple(case, "keepalive", &mkmsg::keepalive())),
+        "eor" => {
+            let f = fam(num(1)?);
+            let (_, dec) = match transfer(f, &dflt, &Message::eor(f), 0, false) {
+                Ok(x) => x,
+                Err((c, d)) => return Ok(vec![viol(&c, format!("{}:eor", mkmsg::family_name(f)), d, case)]),
+            };
+            if dec.eor == vec![f] && dec.reach.is_empty() && dec.unreach.is_empty() {
+                Ok(vec![])
+            } else {
+                Ok(vec![viol("eor-differs", format!("{}:eor", mkmsg::family_name(f)), format!("decoded EoR list {:?}", dec.eor), case)])
+            }
+        }
+        _ => Err(format!("unknown case {case}")),
+    }
+}
+
+fn pair_class(d: &PairDesc) -> String {
+    format!(
+        "{}{}{}{}",
+        if d.two_byte_as() { "as2" } else { "as4" },
+        if d.ext_msg() { "+xmsg" } else { "" },
+        if d.ext_nh() { "+xnh" } else { "" },
+        if d.tx_addpath() { "+addpath" } else { "" }
+    )
+}
+
+fn all_cases() -> Vec<String> {
+    let fams = mkmsg::families();
+    let mut c = Vec::new();
+    for (fi, f) in fams.iter().enumerate() {
+        for i in 0..mkmsg::nlris_named(*f).len() {
+            c.push(format!("nlri:{fi}:{i}:r"));
+            c.push(format!("nlri:{fi}:{i}:u"));
+        }
+        for i in 0..mkmsg::nlris_code_only(*f).len() {
+            c.push(format!("codeonly:{fi}:{i}:r"));
+            c.push(format!("codeonly:{fi}:{i}:u"));
+        }
+        c.push(format!("all:{fi}:r"));
+        c.push(format!("all:{fi}:u"));
+        c.push(format!("eor:{fi}"));
+        for i in 0..mkmsg::nexthops(*f).len() {
+            c.push(format!("nh:{fi}:{i}"));
+        }
+        for (name, _, _) in mkmsg::codec_pairs_quick(*f) {
+            for sz in ["min", "max"] {
+                c.push(format!("pair:{fi}:{name}:{sz}:r"));
+                c.push(format!("pair:{fi}:{name}:{sz}:u"));
+            }
+        }
+    }
+    let nsets = mkmsg::attribute_sets().len();
+    for fi in [0usize, 1, 7] {
+        for i in 0..nsets {
+            c.push(format!("attr:{fi}:{i}"));
+        }
+    }
+    for i in 0..mkmsg::opens().len() {
+        c.push(format!("open:{i}"));
+    }
+    for i in 0..mkmsg::notifications().len() {
+        c.push(format!("notif:{i}"));
+    }
+    for i in 0..mkmsg::route_refreshes().len() {
+        c.push(format!("rr:{i}"));
+    }
+    c.push("keepalive".into());
+    c
+}
+
+/// Generator self-checks that do not involve the subject's decoder: failures
+/// are machinery errors (the generators are wrong), not findings.
+fn selfcheck(rep: &mut Report) -> Result<(), String> {
+    // distinctness and min/max ordering of the NLRI sets; bulk injectivity
+    for f in mkmsg::families() {
+        let all = mkmsg::nlris(f, NlriSize::All);
+        let set: std::collections::BTreeSet<String> = all.iter().map(|n| format!("{n:?}")).collect();
+        if set.len() != all.len() || all.is_empty() {
+            return Err(format!("{}: NLRI values not distinct / empty", mkmsg::family_name(f)));
+        }
+        let min = mkmsg::nlri_wire_len(&mkmsg::nlris(f, NlriSize::Min)[0]);
+        let max = mkmsg::nlri_wire_len(&mkmsg::nlris(f, NlriSize::Max)[0]);
+        if all.iter().any(|n| mkmsg::nlri_wire_len(n) < min) || min > max {
+            return Err(format!("{}: Min/Max not extremal", mkmsg::family_name(f)));
+        }
+        for big in [false, true] {
+            let bulk = mkmsg::nlri_bulk(f, 3000, big);
+            let s: std::collections::BTreeSet<Vec<u8>> = bulk.iter().map(|n| n.encode_to_bytes()).collect();
+            if s.len() != bulk.len() {
+                return Err(format!("{}: nlri_nth(big={big}) not injective", mkmsg::family_name(f)));
+            }
+        }
+        rep.notes.push(format!(
+            "gen: {} nlri values={} min={}B max={}B bulk small={}B big={}B",
+            mkmsg::family_name(f), all.len(), min, max,
+            mkmsg::nlri_wire_len(&mkmsg::nlri_nth(f, 1, false)), mkmsg::nlri_wire_len(&mkmsg::nlri_nth(f, 1, true))
+        ));
+    }
+    // attr_block_of_size is exact from 16 upwards
+    let mut exact = 0;
+    for t in (13..=6000usize).chain([65000, 65535]) {
+        let (a, n) = mkmsg::attr_block_of_size(t);
+        if n != mkmsg::attrs_wire_len(&a) {
+            return Err(format!("attr_block_of_size({t}): reported {n} != measured"));
+        }
+        if t >= 16 && n != t {
+            return Err(format!("attr_block_of_size({t}) produced {n}"));
+        }
+        exact += 1;
+    }
+    rep.notes.push(format!("gen: attr_block_of_size exact for {exact} targets (16..=6000, 65000, 65535)"));
+    // capability sets fit one OPEN; oversize ones do not
+    for (n, c) in mkmsg::capability_sets() {
+        if mkmsg::caps_wire_len(&c) > 253 {
+            return Err(format!("capability set {n} is {} bytes", mkmsg::caps_wire_len(&c)));
+        }
+    }
+    for (n, c) in mkmsg::capability_sets_oversize() {
+        if mkmsg::caps_wire_len(&c) <= 253 {
+            return Err(format!("oversize capability set {n} is only {} bytes", mkmsg::caps_wire_len(&c)));
+        }
+    }
+    // the 1024 pairs negotiate what their descriptor says
+    let mut outcomes = std::collections::BTreeSet::new();
+    for f in [Family::IPV4, Family::IPV6_VPN] {
+        for (d, tx, rx) in mkmsg::codec_pairs_desc(f) {
+            let txs = tx.family_state(f).map(|s| s.addpath_tx);
+            let rxs = rx.family_state(f).map(|s| s.addpath_rx);
+            if tx.two_byte_as != d.two_byte_as() || rx.two_byte_as != d.two_byte_as()
+                || tx.extended_length != d.ext_msg() || rx.extended_length != d.ext_msg()
+                || txs != Some(d.tx_addpath()) || rxs != Some(d.tx_addpath())
+                || tx.max_message_length() != d.max_len()
+                || PairDesc::parse(&d.name()) != Some(d)
+            {
+                return Err(format!("pair {} of {}: negotiated codec disagrees with the descriptor", d.name(), mkmsg::family_name(f)));
+            }
+            outcomes.insert(pair_class(&d));
+        }
+    }
+    rep.notes.push(format!("gen: 2x1024 capability pairs negotiate as described; {} distinct outcomes", outcomes.len()));
+    let _ = Capability::RouteRefresh;
+    Ok(())
+}
+
+/// wire.rs readers: totality (no panic on truncations / single-byte mutations of
+/// valid input) and acceptance of what the repository's BMP/MRT/RTR encoders emit.
+fn wire_selftest(rep: &mut Report) -> Result<(), String> {
+    use bytes::BytesMut;
+    use rustybgp_packet::{bmp, mrt, rpki};
+    use tokio_util::codec::Encoder;
+    let mut corpus: Vec<(&'static str, Vec<u8>)> = Vec::new();
+    // BGP frames
+    let mut tx = PeerCodec::new();
+    for (_, m) in mkmsg::opens().into_iter().take(12).chain(mkmsg::notifications().into_iter().take(4)) {
+        if let Ok(Ok(fs)) = catch(|| mkmsg::encode(&mut tx, &m)) {
+            corpus.extend(fs.into_iter().map(|f| ("bgp", f)));
+        }
+    }
+    for f in mkmsg::families() {
+        let (mut tx, _) = mkmsg::default_codec_pair(f);
+        for (_, m) in mkmsg::updates(f, 2, true, false, &mkmsg::attribute_sets().last().unwrap().1) {
+            if let Ok(Ok(fs)) = catch(|| mkmsg::encode(&mut tx, &m)) {
+                corpus.extend(fs.into_iter().map(|f| ("bgp", f)));
+            }
+        }
+    }
+    // BMP (the repository's encoder)
+    let v4: std::net::IpAddr = "192.0.2.2".parse().unwrap();
+    let v6: std::net::IpAddr = "2001:db8::2".parse().unwrap();
+    let open = mkmsg::opens()[1].1.clone();
+    let mut bmp_ok = 0;
+    let mut bmp_msgs: Vec<bmp::Message> = Vec::new();
+    for addr in [v4, v6] {
+        let h = bmp::PerPeerHeader::new(0, 65001, "192.0.2.2".parse().unwrap(), 0, addr, 1);
+        bmp_msgs.push(bmp::Message::PeerUp { header: h.clone(), local_addr: addr, local_port: 179, remote_port: 40000, local_open: open.clone(), remote_open: open.clone() });
+        bmp_msgs.push(bmp::Message::PeerDown { header: h.clone(), reason: bmp::PeerDownReason::RemoteUnexpected });
+        bmp_msgs.push(bmp::Message::PeerDown { header: h.clone(), reason: bmp::PeerDownReason::LocalFsm(2) });
+        bmp_msgs.push(bmp::Message::PeerDown { header: h.clone(), reason: bmp::PeerDownReason::LocalNotification(mkmsg::notifications()[3].1.clone()) });
+        bmp_msgs.push(bmp::Message::PeerDown { header: h.clone(), reason: bmp::PeerDownReason::Deconfigured });
+        for f in [Family::IPV4, Family::IPV6] {
+            for (_, m) in mkmsg::updates(f, 3, true, false, &mkmsg::base_attrs()) {
+                bmp_msgs.push(bmp::Message::RouteMonitoring { header: h.clone().with_post_policy(), update: m, addpath: false });
+            }
+        }
+    }
+    bmp_msgs.push(bmp::Message::Initiation(vec![(bmp::Message::INFO_TYPE_SYSNAME, b"rtr1".to_vec()), (bmp::Message::INFO_TYPE_SYSDESCR, b"x".to_vec())]));
+    bmp_msgs.push(bmp::Message::Termination);
+    let n_bmp = bmp_msgs.len();
+    for m in &bmp_msgs {
+        let mut b = BytesMut::new();
+        let mut c = bmp::BmpCodec::new();
+        if catch(|| c.encode(m, &mut b)).is_ok() {
+            let v = b.to_vec();
+            match wire::read_bmp(&v) {
+                Ok(x) if x.length == v.len() => bmp_ok += 1,
+                Ok(x) => rep.notes.push(format!("wire: BMP type {} length {} != {} bytes emitted", x.msg_type, x.length, v.len())),
+                Err(e) => rep.notes.push(format!("wire: BMP reader rejects the encoder's output: {e}")),
+            }
+            corpus.push(("bmp", v));
+        }
+    }
+    // MRT
+    let mut mrt_ok = 0;
+    let mut mrt_n = 0;
+    for (ra, la) in [(v4, v4), (v6, v6)] {
+        for addpath in [false, true] {
+            let h = mrt::MpHeader::new(65001, 65002, 0, ra, la, true);
+            let m = mrt::Message::Mp { header: h, body: mkmsg::updates(Family::IPV4, 2, true, addpath, &mkmsg::base_attrs())[0].1.clone(), addpath };
+            let mut b = BytesMut::new();
+            let mut c = mrt::MrtCodec::new();
+            if catch(|| c.encode(&m, &mut b)).is_ok() {
+                mrt_n += 1;
+                let v = b.to_vec();
+                match wire::read_mrt(&v) {
+                    Ok(x) if x.total_len() == v.len() => mrt_ok += 1,
+                    Ok(_) => rep.notes.push("wire: MRT record length differs from bytes emitted".into()),
+                    Err(e) => rep.notes.push(format!("wire: MRT reader rejects the encoder's output: {e}")),
+                }
+                corpus.push(("mrt", v));
+            }
+        }
+    }
+    let recs = vec![
+        mrt::TableDumpRecord::PeerIndexTable { router_id: "192.0.2.1".parse().unwrap(), peers: vec![
+            mrt::PeerEntry { bgp_id: "192.0.2.2".parse().unwrap(), addr: v4, asn: 65001 },
+            mrt::PeerEntry { bgp_id: "192.0.2.3".parse().unwrap(), addr: v6, asn: 4_200_000_000 },
+        ] },
+        mrt::TableDumpRecord::RibIpv4Unicast { seq: 0, prefix: mkmsg::nlris(Family::IPV4, NlriSize::Max).remove(0), entries: vec![
+            mrt::RibEntry { peer_index: 0, originated: 1, nexthop: Some(mkmsg::nh_v4()), attrs: std::sync::Arc::new(mkmsg::base_attrs()) },
+        ] },
+        mrt::TableDumpRecord::RibIpv6Unicast { seq: 1, prefix: mkmsg::nlris(Family::IPV6, NlriSize::Max).remove(0), entries: vec![
+            mrt::RibEntry { peer_index: 1, originated: 1, nexthop: Some(mkmsg::nh_v6()), attrs: std::sync::Arc::new(mkmsg::base_attrs()) },
+            mrt::RibEntry { peer_index: 0, originated: 2, nexthop: Some(mkmsg::nh_v6_ll()), attrs: std::sync::Arc::new(mkmsg::attribute_sets().last().unwrap().1.clone()) },
+        ] },
+    ];
+    for rcd in &recs {
+        let mut b = BytesMut::new();
+        if catch(|| mrt::encode_table_dump(7, rcd, &mut b)).is_ok() {
+            mrt_n += 1;
+            let v = b.to_vec();
+            match wire::read_mrt(&v) {
+                Ok(x) if x.total_len() == v.len() && !matches!(x.body, wire::MrtBody::Other) => mrt_ok += 1,
+                Ok(_) => rep.notes.push("wire: TABLE_DUMP_V2 record not recognised / length differs".into()),
+                Err(e) => rep.notes.push(format!("wire: MRT reader rejects encode_table_dump output: {e}")),
+            }
+            corpus.push(("mrt", v));
+        }
+    }
+    // RTR
+    let mut rtr_ok = 0;
+    let mut rtr_n = 0;
+    for ver in [0u8, 1] {
+        let msgs = vec![
+            rpki::Message::SerialNotify { session_id: 7, serial_number: 9 },
+            rpki::Message::SerialQuery { session_id: 7, serial_number: 9 },
+            rpki::Message::ResetQuery,
+            rpki::Message::CacheResponse { session_id: 7 },
+            rpki::Message::IpPrefix(rpki::Prefix { net: "192.0.2.0/24".parse().unwrap(), flags: 1, max_length: 24, as_number: 65001 }),
+            rpki::Message::IpPrefix(rpki::Prefix { net: "2001:db8::/32".parse().unwrap(), flags: 1, max_length: 48, as_number: 65001 }),
+            rpki::Message::EndOfData { session_id: 7, serial_number: 9, refresh_interval: 3600, retry_interval: 600, expire_interval: 7200 },
+            rpki::Message::CacheReset,
+            rpki::Message::ErrorReport { error_code: 2 },
+        ];
+        for m in &msgs {
+            let mut b = BytesMut::new();
+            let mut c = rpki::RtrCodec::with_version(ver);
+            if catch(|| c.encode(m, &mut b)).is_ok() {
+                rtr_n += 1;
+                let v = b.to_vec();
+                match wire::read_rtr(&v) {
+                    Ok(x) if x.length == v.len() => rtr_ok += 1,
+                    Ok(_) => rep.notes.push("wire: RTR PDU length differs from bytes emitted".into()),
+                    Err(e) => rep.notes.push(format!("wire: RTR reader rejects the encoder's output (v{ver}): {e}")),
+                }
+                corpus.push(("rtr", v));
+            }
+        }
+    }
+    rep.notes.push(format!("wire: repository encoders accepted by the independent readers: BMP {bmp_ok}/{n_bmp}, MRT {mrt_ok}/{mrt_n}, RTR {rtr_ok}/{rtr_n}"));
+    // hand-written RFC vectors the readers must accept (independent of the repository)
+    let vectors: Vec<(&str, Vec<u8>, fn(&[u8]) -> Result<(), String>)> = vec![
+        // RFC 9072 OPEN: opt len 255, marker 255, ext len 0x0009, param type 2 len(2)=6, MP cap
+        ("open-rfc9072", {
+            let mut v = vec![0xff; 16];
+            v.extend_from_slice(&[0, 41, 1, 4, 0xfd, 0xe9, 0, 90, 192, 0, 2, 1, 255, 255, 0, 9, 2, 0, 6, 1, 4, 0, 1, 0, 1]);
+            v
+        }, |b| wire::read_frame(b, 4096).and_then(|f| match f.body { wire::Body::Open(o) if o.extended && o.caps.len() == 1 => Ok(()), _ => Err("not extended".into()) })),
+        // RFC 8210 Error Report: code 2, encapsulated Reset Query (8), text "bad"
+        ("rtr-error-report", vec![1, 10, 0, 2, 0, 0, 0, 27, 0, 0, 0, 8, 1, 2, 0, 0, 0, 0, 0, 8, 0, 0, 0, 3, b'b', b'a', b'd'],
+            |b| wire::read_rtr(b).map(|_| ())),
+        // RFC 8210 Router Key: flags 1, SKI 20, AS 65001, SPKI 3 bytes
+        ("rtr-router-key", { let mut v = vec![1, 9, 1, 0, 0, 0, 0, 35]; v.extend_from_slice(&[7; 20]); v.extend_from_slice(&[0, 0, 0xfd, 0xe9, 1, 2, 3]); v },
+            |b| wire::read_rtr(b).map(|_| ())),
+        // RFC 7854 Stats Report: one counter type 0 (rejected prefixes) len 4
+        ("bmp-stats", { let mut v = vec![3, 0, 0, 0, 60, 1]; v.extend_from_slice(&[0; 2]); v.extend_from_slice(&[0; 8]); v.extend_from_slice(&[0; 12]); v.extend_from_slice(&[192, 0, 2, 2, 0, 0, 0xfd, 0xe9, 192, 0, 2, 2, 0, 0, 0, 1, 0, 0, 0, 0]); v.extend_from_slice(&[0, 0, 0, 1, 0, 0, 0, 4, 0, 0, 0, 9]); v },
+            |b| wire::read_bmp(b).map(|_| ())),
+        // RFC 8050 RIB_IPV4_UNICAST_ADDPATH, one entry, path id 5, ORIGIN only
+        ("mrt-rib-addpath", vec![0, 0, 0, 1, 0, 13, 0, 8, 0, 0, 0, 26, 0, 0, 0, 0, 24, 192, 0, 2, 0, 1, 0, 0, 0, 0, 0, 1, 0, 0, 0, 5, 0, 4, 0x40, 1, 1, 0],
+            |b| wire::read_mrt(b).and_then(|r| match r.body { wire::MrtBody::Rib { addpath: true, ref entries, .. } if entries[0].path_id == Some(5) => Ok(()), _ => Err("shape".into()) })),
+        // RFC 8277 withdraw: compat field 0x800000, 10.0.0.0/8
+        ("labeled-withdraw", vec![32, 0x80, 0, 0, 10],
+            |b| wire::walk_nlri(wire::NlriKind::LabeledV4, wire::NlriOpts::withdraw(false), b, wire::Span::new(0, b.len())).and_then(|v| if v.len() == 1 && v[0].prefix_bits == 8 { Ok(()) } else { Err("shape".into()) })),
+    ];
+    for (name, bytes, f) in &vectors {
+        f(bytes).map_err(|e| format!("wire self-test vector {name}: {e}"))?;
+        corpus.push(("vec", bytes.clone()));
+    }
+    // totality: every truncation, every byte x {^1, ^0x80, 0, 0xff}
+    let mut calls = 0u64;
+    let mut accepted = 0u64;
+    for (kind, v) in &corpus {
+        let run = |b: &[u8]| -> Result<bool, String> {
+            catch(|| match *kind {
+                "bgp" => wire::read_frame(b, 65535).and_then(|f| wire::update_nlri_fields(b, &f, false).map(|_| ())).is_ok(),
+                "bmp" => wire::read_bmp(b).is_ok(),
+                "mrt" => wire::read_mrt(b).is_ok(),
+                "rtr" => wire::read_rtr(b).is_ok(),
+                _ => {
+                    let _ = wire::read_frame(b, 65535);
+                    let _ = wire::read_bmp(b);
+                    let _ = wire::read_mrt(b);
+                    let _ = wire::read_rtr(b);
+                    for k in [wire::NlriKind::Ipv4, wire::NlriKind::Ipv6, wire::NlriKind::LabeledV4, wire::NlriKind::LabeledV6, wire::NlriKind::VpnV4, wire::NlriKind::VpnV6, wire::NlriKind::Evpn, wire::NlriKind::Rtc] {
+                        for ap in [false, true] {
+                            let _ = wire::walk_nlri(k, wire::NlriOpts::reach(ap), b, wire::Span::new(0, b.len()));
+                            let _ = wire::walk_nlri(k, wire::NlriOpts::withdraw(ap), b, wire::Span::new(0, b.len()));
+                        }
+                    }
+                    true
+                }
+            })
+        };
+        for cut in 0..=v.len() {
+            calls += 1;
+            if run(&v[..cut]).map_err(|p| format!("wire reader panicked on a truncation of a {kind} sample: {p}"))? {
+                accepted += 1;
+            }
+        }
+        let step = if v.len() > 600 { 7 } else { 1 };
+        for i in (0..v.len()).step_by(step) {
+            for m in 0..4 {
+                let mut w = v.clone();
+                w[i] = match m { 0 => w[i] ^ 1, 1 => w[i] ^ 0x80, 2 => 0, _ => 0xff };
+                calls += 1;
+                if run(&w).map_err(|p| format!("wire reader panicked on a mutated {kind} sample (offset {i}): {p}"))? {
+                    accepted += 1;
+                }
+            }
+        }
+    }
+    rep.notes.push(format!("wire: totality check: {} samples, {calls} reader calls on truncations/mutations, 0 panics, {accepted} accepted", corpus.len()));
+    Ok(())
+}
+
+pub fn run(replay: Option<&str>) -> Report {
     let mut rep = Report::new("C04", "hx-c04");
-    rep.machinery_error = Some("harness not built yet".into());
+    rep.rule = "SMOKE TEST of the shared generators: one case per generated value (family x NLRI value x reach/unreach, \
+        next-hop case, attribute set, 16 negotiated capability outcomes x min/max NLRI, OPEN/NOTIFICATION/ROUTE-REFRESH value); \
+        a case = encode with negotiate(local,remote), independent frame/NLRI walk, decode with negotiate(remote,local), compare; \
+        distinct = distinct wire encodings produced".to_string();
+    if let Some(case) = replay {
+        match eval_case(case) {
+            Ok(vs) => {
+                for v in &vs {
+                    eprintln!("replay: {} :: {}", v.sig, v.what);
+                }
+                if vs.is_empty() {
+                    eprintln!("replay: case {case} round-trips");
+                }
+                rep.evaluations = 1;
+                rep.violations_from(vs);
+            }
+            Err(e) => rep.machinery_error = Some(e),
+        }
+        return rep;
+    }
+    if let Err(e) = selfcheck(&mut rep) {
+        rep.machinery_error = Some(format!("generator self-check: {e}"));
+        return rep;
+    }
+    if let Err(e) = wire_selftest(&mut rep) {
+        rep.machinery_error = Some(format!("wire self-test: {e}"));
+        return rep;
+    }
+    let cases = all_cases();
+    let mut per_group: BTreeMap<String, (u64, u64)> = BTreeMap::new();
+    let mut distinct = std::collections::BTreeSet::new();
+    for (i, case) in cases.iter().enumerate() {
+        let vs = match eval_case(case) {
+            Ok(v) => v,
+            Err(e) => {
+                rep.machinery_error = Some(e);
+                return rep;
+            }
+        };
+        rep.evaluations += 1;
+        let group = {
+            let p: Vec<&str> = case.split(':').collect();
+            match p[0] {
+                "nlri" | "all" | "nh" | "pair" | "eor" | "codeonly" | "attr" => format!("{}:{}", p[0], mkmsg::family_name(fam(p[1].parse().unwrap_or(0)))),
+                o => o.to_string(),
+            }
+        };
+        let e = per_group.entry(group).or_insert((0, 0));
+        e.0 += 1;
+        if vs.is_empty() {
+            e.1 += 1;
+        }
+        distinct.insert(case.clone());
+        rep.sample(i as u64, || case.clone());
+        rep.violations_from(vs);
+    }
+    rep.distinct_nontrivial = distinct.len() as u64;
+    // one note per kind of case, summed over families, then the per-family NLRI line
+    let mut by_kind: BTreeMap<String, (u64, u64)> = BTreeMap::new();
+    for (g, (n, ok)) in &per_group {
+        let k = g.split(':').next().unwrap().to_string();
+        let e = by_kind.entry(k).or_insert((0, 0));
+        e.0 += n;
+        e.1 += ok;
+    }
+    for (k, (n, ok)) in &by_kind {
+        rep.notes.push(format!("smoke: {k}: {ok}/{n} generated cases round-trip"));
+    }
+    for (g, (n, ok)) in &per_group {
+        if ok != n {
+            rep.notes.push(format!("smoke: {g}: only {ok}/{n} round-trip (see violations / notes/gen-findings.md)"));
+        }
+    }
+    rep.notes.push("assume: smoke test only - the C04 oracle (size ladders, frame limits, all 1024 pairs, AS4 reconciliation) is not implemented yet".into());
+    rep.exhaustive = true;
     rep
 }
